@@ -113,40 +113,72 @@ def a34(ctx, rep):
     # A4 scope discipline
     new = ctx.fn('TargetOsIterator::new', file='target_os_check.rs')
     rep.check('TargetScope::Accept' in vt.show(new['tail']).replace(' ', ''), 'A4', 'initial-scope-accept', 'walk starts in Accept scope', 'TargetOsIterator::new does not start in Accept scope', {'file': new['file'], 'line': new['line']})
-    asg = [a for a in it['assigns'] if isinstance(a.get('target'), dict) and a['target'].get('name') == 'scope']
-    ok = len(asg) == 1
-    why = f'{len(asg)} assignments to scope'
-    if ok:
-        val = vt.show(vt.strip(asg[0]['value'])).replace(' ', '')
-        trig = [vt.show(fr['c']) for fr in asg[0]['guard'] if fr.get('k') == 'if' and not fr.get('neg')]
-        ok = val == 'TargetScope::Reject' and any('is_ident(\'not\')' in t.replace('"', "'") for t in trig)
-        why = f"scope = {val} under {trig}"
-    rep.check(ok, 'A4', 'scope:only-constant-reject-on-not', 'the only scope change is `scope = Reject` on `not`', f"TargetOsIterator::next: {why} — inside not(..) every nested target_os must stay in reject scope (a toggle makes not(any(not(..)))) accept what the rule rejects)", site)
+    # the scope a candidate is yielded with / a child is pushed with, as a value: whatever the idiom (a `mut scope` reassigned
+    # under `if`, a `let scope = outer.enter(&meta)` helper, a match) it must be
+    #       if <popped meta>.path().is_ident("not") { Reject } else { <popped scope> }
+    def popped(v, idx):
+        v = vt.unvar(v)
+        if not (isinstance(v, dict) and v.get('k') == 'field' and str(v.get('name')) == str(idx)):
+            return False
+        b_ = vt.unvar(v.get('base'))
+        if not (isinstance(b_, dict) and b_.get('k') == 'payload' and str(b_.get('variant', '')).split('::')[-1] == 'Some'):
+            return False
+        p_ = vt.unvar(b_.get('of'))
+        return isinstance(p_, dict) and p_.get('k') == 'call' and p_.get('f') == 'pop' and 'meta' in vt.show(p_.get('recv'))
+
+    def scope_value(v):
+        """'ok' / reason"""
+        v = vt.unvar(v)
+        if not (isinstance(v, dict) and v.get('k') == 'cond'):
+            return f'`{vt.show(v)[:60]}` is not decided by the `not` test'
+        c = vt.unvar(v.get('c'))
+        neg = False
+        while isinstance(c, dict) and c.get('k') == 'op' and c.get('op') == '!' and len(c.get('args', [])) == 1:
+            neg, c = not neg, vt.unvar(c['args'][0])
+        is_not = isinstance(c, dict) and c.get('k') == 'call' and c.get('f') == 'is_ident' and c.get('args') and isinstance(vt.strip(c['args'][0]), dict) and vt.strip(c['args'][0]).get('v') == 'not' \
+            and any(popped(x, 1) for x in vt.walk(c.get('recv') or {}))
+        if not is_not:
+            return f'scope depends on `{vt.show(c)[:60]}`, not on <popped meta>.path().is_ident("not")'
+        t_, e_ = (v.get('e'), v.get('t')) if neg else (v.get('t'), v.get('e'))
+        tv = vt.unvar(t_)
+        if not (isinstance(tv, dict) and tv.get('k') == 'path' and str(tv.get('text', '')).replace(' ', '').endswith('TargetScope::Reject')):
+            return f'under `not` the scope becomes `{vt.show(t_)[:50]}` instead of the constant Reject'
+        if not popped(e_, 0):
+            return f'outside `not` the scope is `{vt.show(e_)[:50]}` instead of the scope the item was pushed with'
+        return 'ok'
+    used = []
     ext = [c for c in it['calls'] if c.get('f') == 'extend' and 'meta' in vt.show(c.get('recv'))]
-    ok = False
+    pushed = []
     for e in ext:
         for x in vt.walk(e['args'][0]):
-            if x.get('k') == 'closure' and isinstance(x.get('body'), dict) and x['body'].get('k') == 'tuple' and x['body'].get('items'):
-                first = x['body']['items'][0]
-                def is_scope(v):
-                    if not isinstance(v, dict):
-                        return False
-                    if v.get('k') == 'cond':
-                        return is_scope(v['t']) and is_scope(v['e'])
-                    return v.get('name') == 'scope' or v.get('root') == 'scope'
-                if is_scope(first):
-                    ok = True
-    rep.check(ok, 'A4', 'scope:children-inherit', 'children are pushed with their parent\'s scope', 'TargetOsIterator::next does not push nested meta items with the current scope', site)
-    rets = [r for r in it['returns'] if 'Some' in vt.show(r.get('v')) or vt.strip(r.get('v') or {}).get('k') == 'some']
-    ok = any('scope' in vt.show(r['v']) for r in rets)
-    rep.check(ok, 'A4', 'scope:yielded-with-candidate', 'each candidate is yielded with its scope', 'TargetOsIterator::next does not yield (scope, os) pairs', site)
+            if x.get('k') == 'closure' and isinstance(x.get('body'), dict) and vt.unvar(x['body']).get('k') == 'tuple' and vt.unvar(x['body']).get('items'):
+                pushed.append(vt.unvar(x['body'])['items'][0])
+    yielded = []
+    for r in it['returns']:
+        rv = vt.unvar(r.get('v'))
+        if isinstance(rv, dict) and rv.get('k') == 'some':
+            tv = vt.unvar(rv.get('v'))
+            if isinstance(tv, dict) and tv.get('k') == 'tuple' and tv.get('items'):
+                yielded.append(tv['items'][0])
+    verdicts = [scope_value(x) for x in pushed + yielded]
+    bad = [x for x in verdicts if x != 'ok']
+    rep.check(bool(verdicts) and not bad, 'A4', 'scope:only-constant-reject-on-not', 'scope = Reject below `not`, the inherited scope otherwise', f"TargetOsIterator::next: {bad[0] if bad else 'no scope value found'} — inside not(..) every nested target_os must stay in reject scope (a toggle makes not(any(not(..)))) accept what the rule rejects)", site)
+    rep.check(bool(pushed), 'A4', 'scope:children-inherit', 'children are pushed with their parent\'s scope', 'TargetOsIterator::next does not push nested meta items with the current scope', site)
+    rep.check(bool(yielded), 'A4', 'scope:yielded-with-candidate', 'each candidate is yielded with its scope', 'TargetOsIterator::next does not yield (scope, os) pairs', site)
 
 
 def a5(ctx, rep):
-    f = ctx.fn('accept_target_os', file='target_os_check.rs')
+    f0 = ctx.fn('accept_target_os', file='target_os_check.rs')
+    # inlined view (helpers such as `any_requested(found, targets)` expanded), early `return true/false` folded into ONE
+    # boolean formula: `if c { return false } rest` ≡ ¬c ∧ rest
+    f = ctx.fnx('accept_target_os', file='target_os_check.rs')
     site = {'file': f['file'], 'line': f['line']}
-    extra_returns = [r for r in f['returns'] if not any(fr.get('k') == 'if' and 'is_empty' in vt.show(fr['c']) for fr in r['guard'])]
-    rep.check(not extra_returns, 'A5', 'no-early-decision', 'the decision is taken once, after all candidates are known', f"accept_target_os returns early (line {extra_returns[0]['line'] if extra_returns else 0}) while candidates are still being streamed: the verdict depends on the order in which cfg predicates are written/visited", site)
+    from .. import parser_rules as pr
+    formula, why = pr.bool_result(f)
+    looped = [r for r in f['returns'] if any(fr.get('k') in ('for', 'while', 'loop', 'closure') for fr in r['guard'])]
+    rep.check(formula is not None and not looped, 'A5', 'no-early-decision', 'the decision is one formula over the complete partition (early returns fold into it)', f"accept_target_os returns early ({why or 'inside a loop over the candidates'}) while candidates are still being streamed: the verdict depends on the order in which cfg predicates are written/visited", site)
+    if formula is None:
+        formula = f['tail']
     # --- the decision formula, read semantically: local closures are expanded, then
     #     D  =  ¬ any-any(target_os, REJECTED)  ∧  ( ACCEPTED.is_empty() ∨ any-any(target_os, ACCEPTED) )
     # where ACCEPTED / REJECTED are the two halves of the partition, identified by evaluating the partition predicate
@@ -202,8 +234,15 @@ def a5(ctx, rep):
             return h
         return None
     tparam = next((q['name'] for q in f['params'] if q['name'] != 'attrs'), 'target_os')
-    D = terms(f['tail'], '&&')
-    txt = vt.show(f['tail']).replace(' ', '')
+
+    def no_targets(x):
+        x = expand(x)
+        return isinstance(x, dict) and x.get('k') == 'call' and x.get('f') == 'is_empty' and not x.get('args') and isinstance(vt.strip(x.get('recv')), dict) and vt.strip(x['recv']).get('k') == 'atom' and vt.strip(x['recv']).get('root') == tparam and not vt.strip(x['recv']).get('path')
+    # `targets.is_empty() || …`: the no-target shortcut (A2) is not part of the decision over the candidates
+    top = [t for t in terms(formula, '||') if not no_targets(t)]
+    core_formula = top[0] if len(top) == 1 else formula
+    D = terms(core_formula, '&&')
+    txt = vt.show(core_formula).replace(' ', '')
     negs = [vt.unvar(x) for x in D if isinstance(x, dict) and x.get('k') == 'op' and x.get('op') == '!']
     poss = [x for x in D if not (isinstance(x, dict) and x.get('k') == 'op' and x.get('op') == '!')]
     ok = len(D) == 2 and len(negs) == 1 and len(poss) == 1
